@@ -71,7 +71,7 @@ func main() {
 		}})
 	}
 	commit := txnh.Op{Kind: "commit"}
-	for _, bk := range common.Backends() {
+	for _, bk := range common.BackendsTier(run.Thorough()) {
 		for _, m := range bk.Modes {
 			for _, sh := range common.Shapes(true) {
 				if sh.Pess != m.Pessimistic || (sh.LockOnlyPrimary && bk.Name == "unistore") {
@@ -82,6 +82,9 @@ func main() {
 					// (2) faults + reader, (3) the same with one-key batches
 					for _, variant := range []string{"faults", "faults+reader", "batch1"} {
 						variant := variant
+						if bk.Name == "unistore" && !run.Thorough() && variant != "faults" {
+							continue
+						}
 						name := fmt.Sprintf("%s/%s/%s/%s/%s", bk.Name, lo.Name, m, sh.Name, variant)
 						mk := func() *txnh.TxnScenario {
 							clock := false
